@@ -24,7 +24,7 @@ def handlePP (j : Json) : Json :=
     match build defs.toList [] with
     | .error e => Json.mkObj [("exc", toString (repr e))]
     | .ok tbl =>
-      match runExpand tbl (tokenize text) with
+      match runExpandT tbl (tokenize text) with
       | .ok ts => Json.mkObj [("ok", Json.arr (ts.map tokJson).toArray)]
       | .error e => Json.mkObj [("exc", toString (repr e))]
       | .sig s => Json.mkObj [("sig", s)]
@@ -40,7 +40,7 @@ def handlePP (j : Json) : Json :=
     match build2 defs.toList [] with
     | .error e => Json.mkObj [("exc", toString (repr e))]
     | .ok tbl =>
-      match runExpand tbl (tokenize text) with
+      match runExpandT tbl (tokenize text) with
       | .ok ts =>
         match evaluate ts with
         | .ok b => Json.mkObj [("ok", b)]
